@@ -872,12 +872,9 @@ pub extern "C" fn send_time_limit(fd: c_int) -> u64 {
                 &raw mut len,
             ) == -1
             {
-                let error = std::io::Error::last_os_error();
-                if Some(libc::ENOTSOCK) == error.raw_os_error() {
-                    // not a socket
-                    return u64::MAX;
-                }
-                panic!("getsockopt failed: {error}");
+                // not a socket, or not an open descriptor at all: no limit applies and the
+                // call itself reports the error (a panic here would abort the process)
+                return u64::MAX;
             }
             let time_limit = get_time_limit(&tv);
             _ = SEND_TIME_LIMIT.insert(fd, time_limit);
@@ -901,12 +898,9 @@ pub extern "C" fn recv_time_limit(fd: c_int) -> u64 {
                 &raw mut len,
             ) == -1
             {
-                let error = std::io::Error::last_os_error();
-                if Some(libc::ENOTSOCK) == error.raw_os_error() {
-                    // not a socket
-                    return u64::MAX;
-                }
-                panic!("getsockopt failed: {error}");
+                // not a socket, or not an open descriptor at all: no limit applies and the
+                // call itself reports the error (a panic here would abort the process)
+                return u64::MAX;
             }
             let time_limit = get_time_limit(&tv);
             _ = RECV_TIME_LIMIT.insert(fd, time_limit);
